@@ -93,6 +93,8 @@ def parseSched (s : String) : Option (List Poll.Sched) :=
     if it = "p" then some Poll.Sched.pending
     else if it = "d" then some Poll.Sched.pendingDrop
     else if it.startsWith "c" then (it.drop 1).toString.toNat?.map Poll.Sched.chunk
+    -- `i<n>`: the transport fills through initialize_unfilled()+advance(n); same event for the model
+    else if it.startsWith "i" then (it.drop 1).toString.toNat?.map Poll.Sched.chunk
     else none
 
 def showReqs (l : List (Nat × Nat)) : String :=
@@ -298,8 +300,10 @@ def v5Valid (debug : Bool) (toks : List String) : String :=
   | .syntax => "bad-op"
 
 def parseSink (s : String) : Option (List IO.SinkItem) :=
-  if s = "-" then some [] else
-  (s.splitOn ",").mapM fun it =>
+  if s = "-" || s = "g" then some [] else
+  -- a leading `g` = the sink also implements gathering writes; the encoders never issue one, so the
+  -- model's sink has no such notion and the marker is dropped
+  ((s.splitOn ",").filter (· != "g")).mapM fun it =>
     if it = "p" then some IO.SinkItem.pending
     else if it = "z" then some IO.SinkItem.zero
     else if it.startsWith "a" then (it.drop 1).toString.toNat?.map IO.SinkItem.accept
